@@ -65,6 +65,14 @@ def family(tier, rnd):
     add("hof-recursion-swapping-inputs", prog([disp(call("fold", var("inc"), var("neg"), num(5))), disp(call("fold", var("neg"), var("inc"), num(5))), ex(num(0))], funcs=[inc, neg, fold]))
     add("hof-arity-through-input", prog([mark("a"), disp(call("apply", var("inc"), num(1))), disp(call("apply", var("two"), num(1))), mark("dead")], funcs=[inc, two, apply_]))
     add("hof-input-not-a-method", prog([mark("a"), disp(call("apply", var("inc"), num(1))), disp(call("apply", num(7), num(1))), mark("dead")], funcs=[inc, apply_]))
+    # ... also when the input (or a local name) is SPELLED like a method / type of the program: the inner binding is what the call reaches
+    apply2 = func("apply2", ["inc", "N"], [mark("apply2"), ret(call("inc", var("N")))])
+    add("hof-input-named-like-a-method", prog([disp(call("apply2", var("dbl"), num(10))), disp(call("apply2", var("neg"), num(10))), disp(call("apply2", var("inc"), num(10))), disp(call("inc", num(1))), ex(num(0))], funcs=[inc, dbl, neg, apply2]))
+    local2 = func("viaLocal", ["N"], [decl("dbl", var("neg")), ret(call("dbl", var("N")))])
+    add("hof-local-named-like-a-method", prog([disp(call("viaLocal", num(4))), disp(call("dbl", num(4))), ex(num(0))], funcs=[inc, dbl, neg, local2]))
+    add("hof-loop-variable-named-like-a-method", prog([iter_(["inc"], lst(var("dbl"), var("neg")), [disp(call("inc", num(3)))]), disp(call("inc", num(3))), ex(num(0))], funcs=[inc, dbl, neg]))
+    KH = cls("HM", [("p", num(1))], methods=[func("go", ["inc", "N"], [ret(call("inc", var("N")))])])
+    add("hof-type-method-input-named-like-a-method", prog([decl("O", new("HM")), disp(mcall(var("O"), "go", var("dbl"), num(6))), disp(mcall(var("O"), "go", var("inc"), num(6))), ex(num(0))], funcs=[inc, dbl], classes=[KH]))
     K2 = cls("H", [("f", NULL)], ctor=func("H", ["T"], [ex(asg(this("f"), var("T")))]), methods=[func("run", ["N"], [decl("G", this("f")), ret(call("G", var("N")))])])
     add("hof-objects-holding-methods", prog([decl("A", new("H", var("inc"))), decl("B", new("H", var("dbl"))), disp(mcall(var("A"), "run", num(100))), disp(mcall(var("B"), "run", num(100))), disp(mcall(var("A"), "run", num(101))), ex(num(0))],
                                             funcs=[inc, dbl], classes=[K2]))
